@@ -11,6 +11,7 @@ The coordinator's harness/props/c01.py calls run_unit(ctx) with ctx.id == "C01".
 from __future__ import annotations
 
 import json
+import random
 import re
 from fractions import Fraction
 
@@ -33,7 +34,8 @@ TYPES = {"a": "int", "b": "int", "f": "float", "t": "bool", "s": "String"}
 TYCODE = {"int": 0, "float": 1, "bool": 2, "String": 3}
 MY_FINDINGS = ("F-C01-floordiv", "F-C01-mod-sign", "F-C01-truediv-int", "F-C01-pow", "F-C01-macro-double-eval",
                "F-C01-chain-double-eval", "F-C01-serial-text", "F-C01-boolop-value", "F-C01-cond-mixed-type",
-               "F-C01-str-bool", "F-C01-strlit-concat", "F-C01-len-utf8", "F-C01-shift-range")
+               "F-C01-str-bool", "F-C01-strlit-concat", "F-C01-len-utf8", "F-C01-shift-range", "F-C01-mod-float",
+               "F-C01-int-strlit-cond")
 
 HEADER = ("from Reduino.Communication import SerialMonitor\n"
           "from Reduino.Core import analog_read, digital_read\n"
@@ -93,7 +95,7 @@ class Gen:
         if d <= 0 or r.random() < 0.15:
             return self.atom("int")
         if r.random() < self.risky:
-            k = r.choice(["pow", "and-int", "shift-big", "minmax3"])
+            k = r.choice(["pow", "and-int", "shift-big", "minmax3", "int-strlit-cond"])
             self.note("risky:" + k)
             if k == "pow":
                 return f"({self.int_(d - 1)} ** 2)"
@@ -101,6 +103,8 @@ class Gen:
                 return f"({self.int_(d - 1)} {r.choice(['and', 'or'])} {self.int_(d - 1)})"
             if k == "shift-big":
                 return f"({self.int_(d - 1)} >> 40)"
+            if k == "int-strlit-cond":
+                return f'int("12" if {self.bool_(d - 1)} else "13")'
             return f"{r.choice(['min', 'max'])}({self.int_(d - 1)}, {self.int_(d - 1)}, {self.int_(d - 1)})"
         k = r.choice(["add", "sub", "mul", "floordiv", "mod", "bit", "shift", "neg", "pos", "abs", "minmax", "int-float",
                       "int-bool", "int-str", "len", "ifexp", "bool-arith", "add", "sub", "floordiv", "mod", "minmax"])
@@ -317,12 +321,18 @@ def dec_case1(m):
 
 
 def my_findings(ctx):
-    fs = [f for f in ctx.findings if f.get("id") in MY_FINDINGS]
-    if not fs:  # known_findings.json not merged yet: read this unit's own list
-        p = C.VERIF / "known_findings.d" / "C01_expr.json"
-        if p.exists():
-            fs = json.loads(p.read_text())
-    return [f for f in fs if f.get("kind") != "fixed"]
+    """the listed findings of this unit: entries of known_findings.json with this unit's ids, plus the unit's own
+    known_findings.d/C01_expr.json (the source the merged file is assembled from), by id"""
+    own = []
+    p = C.VERIF / "known_findings.d" / "C01_expr.json"
+    if p.exists():
+        own = json.loads(p.read_text())
+    ids = set(MY_FINDINGS) | {f.get("id") for f in own}
+    fs = {f.get("id"): f for f in own}
+    for f in ctx.findings:
+        if f.get("id") in ids and "witness" in f and "exprs" in f["witness"]:
+            fs[f["id"]] = f
+    return [f for f in fs.values() if f.get("kind") != "fixed"]
 
 
 def fw_run_scripts(scripts):
@@ -345,7 +355,9 @@ def fw_run_scripts(scripts):
 
 # ------------------------------------------------------------------ the check
 def run_unit(ctx: C.Ctx):
-    rng = ctx.rng
+    # a stream of its own, derived from the run's seed: the units of C01 share ctx.rng, and the cases of one unit
+    # must not depend on how many numbers the other one drew
+    rng = random.Random(f"{UNIT}:{ctx.seed}")
     thorough = ctx.tier == "thorough"
     exe = ctx.exes.get(UNIT)
     cov = {"unit": UNIT}
@@ -524,7 +536,7 @@ def run_unit(ctx: C.Ctx):
         "rule": "text tie: seeded pyast_wire.gen_expr expressions (all node kinds, mostly ill-typed mixes, depth 1-4) + typed expressions + a fixed list of special forms, non-trivial = contains an operator or call; behaviour/oracle: typed generator (ints a b, float f=a/4.0, bool t=a>0, str s=str(b), depth 1-4, ~8% constructs outside the guard), environments a in A_VALUES x b in B_VALUES fed through analog_read, each (expression, environment) pair distinct; only expressions with a Python value and a model C value are put into sketches (40 per sketch, marker lines); the oracle (c) uses only those inside the extracted expr_guard whose float values are small dyadics",
         "samples": [text_srcs[0], text_srcs[len(loose)], typed[0][1], typed[1][1]] + [it[0] for it in runnable[:3]],
         "distribution": {**dist, "typed_kinds": dict(sorted(gen.kinds.items()))},
-        "guard": "expr_guard (coq/Lang/ToC.v, extracted): // and % on ints of equal sign or exact division, // on floats only with integral quotient, % not on floats, / with a float operand, no **, shift counts 0..31, and/or on bool operands only, both branches of a conditional / both arguments of min/max of the same kind (int-like or float or str), str()/f-string of int or str only (no bool, no float), no literal+literal / literal-compare, len() of ASCII text, every int result within 32 bit, names bound to scalars; harness adds: float values small dyadics (binary rounding unmodelled)",
+        "guard": "expr_guard (coq/Lang/ToC.v, extracted): // and % on ints of equal sign or exact division, // on floats only with integral quotient, % not on floats, / with a float operand, no **, shift counts 0..31, and/or on bool operands only, both branches of a conditional / both arguments of min/max of the same kind (int-like or float or str), str()/f-string of int or str only (no bool, no float), no literal+literal / literal-compare, int(<str>) only of a String object or a single literal, len() of ASCII text, every int result within 32 bit, names bound to scalars; harness adds: float values small dyadics (binary rounding unmodelled)",
         "unmodelled": ["list literals, subscripts, comprehensions, method calls (device getters, list methods), user function calls: to_c answers NotModelled (counted in distribution.text_tie.not_modelled)",
                        "16-bit int of AVR (fits is 32 bit, the width of the g++/mock build)", "binary rounding of float/double (exact rationals; generated floats are dyadic)",
                        "float constants whose str() is not a short positional decimal (exponent form, 0.1)", "String.toFloat, String + number, non-printable pin strings",
